@@ -229,6 +229,17 @@ func enumerate(shard, nshards int, yield func(Case)) {
 			yield(c)
 		}
 	}
+	for i, text := range adversarial {
+		for _, entry := range []string{"data", "datawithpath"} {
+			for _, vo := range []int{0, 4, 8} {
+				idx++
+				if idx%nshards != shard {
+					continue
+				}
+				yield(Case{Files: map[string][]byte{"/w/root.json": []byte(text), "/w/aux.json": []byte(auxDoc)}, Root: "/w/root.json", Entry: entry, AllowExt: i%2 == 0, VOpts: vo})
+			}
+		}
+	}
 	// deep acyclic graphs with sharing: 40 schemas, each referring twice to the next, through
 	// different keywords. Anything that walks references without remembering what it has seen takes
 	// 2^39 steps; loading, validating, serialising and internalising have to stay linear. The second
@@ -439,6 +450,10 @@ var adversarial = []string{
 	`{"openapi":"3.0.3","info":{"title":"t","version":"1"},"paths":{"/a":{"$ref":"aux.json#/paths/~1x"}},"components":{"schemas":{"S0":{"$ref":"aux.json#/components/schemas/A"}}}}`,
 	`{"openapi":"3.0.3","info":{"title":"t","version":"1"},"paths":{"/a":{"get":{"callbacks":{"cb":{"$ref":"#/components/callbacks/CB"}},"responses":{"200":{"description":"d"}}}}},"components":{"callbacks":{"CB":{"{$u}":{"$ref":"#/paths/~1a"}}}}}`,
 	`{"openapi":"3.0.3","info":{"title":"t","version":"1"},"paths":{},"components":{"schemas":{"A":{"allOf":[{"$ref":"#/components/schemas/A"}]},"B":{"not":{"$ref":"#/components/schemas/B"}},"C":{"items":{"$ref":"#/components/schemas/C"},"default":[[[]]]}}}}`,
+	// patterns the regexp engine rejects, met several times by defaults and examples (no type: string,
+	// so document validation does not check the pattern itself)
+	`{"openapi":"3.0.3","info":{"title":"t","version":"1"},"paths":{},"components":{"schemas":{"A":{"pattern":"(?=x)","default":"abc","example":"abd"},"B":{"type":"array","items":{"pattern":"(?!x)"},"default":["a","b","c"],"example":["d","e"]},"C":{"anyOf":[{"pattern":"(?<=a)b"},{"pattern":"(?<=a)b"}],"default":"ab"}}}}`,
+	`{"openapi":"3.0.3","info":{"title":"t","version":"1"},"paths":{"/p":{"get":{"parameters":[{"name":"q","in":"query","schema":{"pattern":"a{2,1}"},"examples":{"one":{"value":"aa"},"two":{"value":"ab"}}}],"responses":{"200":{"description":"d","content":{"application/json":{"schema":{"properties":{"s":{"pattern":"(?P<n>a)(?P<n>b)"}}},"examples":{"e1":{"value":{"s":"ab"}},"e2":{"value":{"s":"cd"}}}}}}}}}}}`,
 	`{"openapi":"3.0.3","info":{"title":"t","version":"1"},"paths":{},"components":{"examples":{"E":{"$ref":"#/components/examples/E"}},"links":{"L":{"$ref":"#/components/links/L"}},"securitySchemes":{"S":{"$ref":"#/components/securitySchemes/S"}},"requestBodies":{"R":{"$ref":"#/components/requestBodies/R"}},"headers":{"H":{"$ref":"#/components/headers/H"}}}}`,
 }
 
